@@ -957,7 +957,7 @@ def run_eread_scenarios(rep, wd, scenarios, label, neg_control=True):
     return res
 
 
-def mc_entryread(rep, wd, tier):
+def mc_entryread(rep, wd, tier, proof=None):
     r = vlib.tlc_mc("EntryRead.tla", "MC_EntryRead.cfg", wd, timeout=300, tag="mc-er")
     rep.add_mc(r, "MC_EntryRead.cfg")
     if r["error"]:
@@ -972,7 +972,7 @@ def mc_entryread(rep, wd, tier):
         rep.neg_controls.append({"spec_mutant": bug, "expected_violation": inv, "found": found})
         if not found:
             raise ToolTrouble("spec mutant %s not detected" % bug)
-    if tier == "thorough":
+    if (tier == "thorough") if proof is None else proof:
         # the same invariants for entries of ANY length under ANY read schedule: inductive invariant, Apalache/SMT
         obl = [("initiation", ["--cinit=CInit", "--init=Init", "--inv=IndInv", "--length=0"]),
                ("consecution", ["--cinit=CInit", "--init=IndInit", "--next=PNext", "--inv=IndInv", "--length=1"]),
@@ -1452,7 +1452,7 @@ def c16(tier):
     rep = Report("C16", tier)
     wd = vlib.workdir("C16", tier)
     vlib.build_harness()
-    mc_entryread(rep, wd, "thorough")
+    mc_entryread(rep, wd, "thorough", proof=(tier == "thorough"))
     sd = vlib.seed()
     rnd = random.Random(sd * 1999 + 16)
     combos = [(ver, st, m, ln) for ver in (1, 2) for st in (1, 2, 3) for m in (0, 8, 12) for ln in (0, 1, 15, 16, 17, 33, 1000)]
@@ -1508,6 +1508,17 @@ def c16(tier):
                     es.append({"sc": "t-ae%d-s%d-m%d-l%d-%s-%d.%d" % (ver, st, m, ln, rname, pos, bit), "hex": flip(b, pos, bit).hex(),
                                "reads": [{"i": 0, "via": "seek", "bufs": rnd.choice(SCHED_BUFS), "under": rnd.choice(SCHED_UNDER), "exp": exp,
                                           "pw": b"pw".hex(), "pwkind": "right", "dmg": dm}]})
+                # a CRC field that is wrong by being ZERO (what AE-2 writers put there; under AE-1 it is still a wrong checksum),
+                # 0xFFFFFFFF, and the CRC of the ciphertext
+                import struct as _st
+                for wname, wv in (("zero", 0), ("ones", 0xFFFFFFFF), ("ctcrc", int(crc_hex(b[e["dstart"] + regs["ct"][0]:e["dstart"] + regs["ct"][1]]), 16))):
+                    if wv == int(exp["crc"], 16):
+                        continue
+                    bb = bytearray(b)
+                    bb[e["chs"] + 16:e["chs"] + 20] = _st.pack("<I", wv)
+                    es.append({"sc": "t-ae%d-s%d-m%d-l%d-crc-%s" % (ver, st, m, ln, wname), "hex": bytes(bb).hex(),
+                               "reads": [{"i": 0, "via": "seek", "bufs": rnd.choice(SCHED_BUFS), "under": {}, "exp": exp,
+                                          "pw": b"pw".hex(), "pwkind": "right", "dmg": "crc"}]})
                 # wrong CRC field
                 for pos in range(e["chs"] + 16, e["chs"] + 20):
                     es.append({"sc": "t-ae%d-s%d-m%d-l%d-crc-%d" % (ver, st, m, ln, pos), "hex": flip(b, pos, rnd.randrange(8)).hex(),
@@ -1537,6 +1548,9 @@ def c16(tier):
             es2 = []
             for bf in ([4096], [65536], [7]):
                 es2.append({"i": 0, "via": "seek", "bufs": bf, "under": {}, "exp": exp, "pw": b"pw".hex(), "pwkind": "right", "dmg": "data"})
+            # ... also when the source hands the unread remainder over in short reads (pages of 1000 or 4096 bytes, tiny reads)
+            for un in ({"max": 1000}, {"max": 4096}, {"list": [4096, 1]}, {"max": 7}):
+                es2.append({"i": 0, "via": "seek", "bufs": [65536], "under": un, "exp": exp, "pw": b"pw".hex(), "pwkind": "right", "dmg": "data"})
             es.append({"sc": "early-ae%d-%d" % (ver, total), "hex": flip(b, e["dstart"] + a, 0).hex(), "reads": es2})
             es.append({"sc": "early-ok-ae%d-%d" % (ver, total), "hex": b.hex(),
                        "reads": [{"i": 0, "via": "seek", "bufs": [4096], "under": {}, "exp": exp, "pw": b"pw".hex(), "pwkind": "right"}]})
